@@ -303,6 +303,29 @@ def build() -> Check:
               kws.get("operation_id") == "identifier.operation_id" and kws.get("parent_id") == "identifier.parent_id",
               f"operation_id={kws.get('operation_id')} parent_id={kws.get('parent_id')}")
     ck.floor("identified_factories", n_f, 14)
+    # ... and the identifier of EVERY record (the factories above copy the structural identifier; the EXECUTION result records build their own) is a
+    # function of constants and parameters only: no clock, no random source, no counter - "the same in every invocation" (h2_C08 #1; these two
+    # factories had been skipped by name)
+    n_e = 0
+    for n, f in upd.methods.items():
+        if not n.startswith("create_"):
+            continue
+        for x in ast.walk(f.node):
+            if isinstance(x, ast.Call) and isinstance(x.func, ast.Name) and x.func.id == "cls":
+                idv = next((k.value for k in x.keywords if k.arg == "operation_id"), None)
+                if idv is None:
+                    raise AnalysisError(f"OperationUpdate.{n}: record built without operation_id keyword")
+                n_e += 1
+                params = {a.arg for a in f.node.args.args + f.node.args.kwonlyargs}
+                impure = [ast.unparse(c)[:80] for c in ast.walk(idv) if isinstance(c, ast.Call)
+                          and not (isinstance(c.func, ast.Name) and c.func.id in ("str", "int", "repr"))]
+                foreign = sorted({v.id for v in ast.walk(idv) if isinstance(v, ast.Name) and v.id not in params
+                                  and not any(isinstance(c, ast.Call) and v in ast.walk(c.func) for c in ast.walk(idv))})
+                ck.ob("R5.recorded-id-is-invocation-independent", f"lambda_service.py:OperationUpdate.{n}", not impure and not foreign,
+                      f"the identifier under which the record is sent is `{ast.unparse(idv)[:120]}`: it calls {impure or foreign} - a different identifier in every "
+                      "invocation (and a shared one for two executions finishing in the same millisecond); a re-delivered invocation that reaches the end of the "
+                      "handler again records the same logical result under a second id")
+    ck.floor("record_identifier_expressions", n_e, 16)
     return ck
 
 
